@@ -1,5 +1,7 @@
 mod golden;
+mod ledger;
 mod runner;
+mod trace;
 
 fn main() {
     let args: Vec<String> = std::env::args().collect();
@@ -8,10 +10,15 @@ fn main() {
         std::process::exit(2);
     }
     let mode = args[1].clone();
+    if mode == "ledger-trace" {
+        trace::main(&args[2..]);
+        return;
+    }
     let opts = runner::parse_opts(&args[2..]);
     let workdir = std::env::var("VH_WORK").unwrap_or_else(|_| "/verif/.work".to_string());
     match mode.as_str() {
         "golden" => runner::run_records(&opts, move |i, r| golden::replay(i, r, &workdir)),
+        "ledger" => runner::run_records(&opts, ledger::replay),
         _ => {
             eprintln!("unknown mode {}", mode);
             std::process::exit(2);
